@@ -263,6 +263,9 @@ def main():
     if verdict:
         print("VIOLATION property=%s replay=%s%s" % (pid, replay_path, tail))
     else:
+        stale = os.path.join(C.VERIF, "replays", "%s_seed%s.json" % (pid, seed))
+        if os.path.exists(stale) and not replay:
+            os.remove(stale)
         print("OK property=%s tier=%s cases=%d theorems=%d/%d wall=%.1fs" % (pid, tier, res["n"], len(discharged), len(theorems), time.time() - t0))
     sys.exit(verdict)
 
